@@ -495,13 +495,27 @@ def _rng_origin_ok(ctx, callterm, argidx=0):
     old = se.call_old.get((site, argidx))
     if old is None:
         return False, "generator operand not tracked"
-    o = strip(old)
-    # the generator object itself may have been advanced by earlier draws: peel those
-    while o[0] == "after":
-        o = strip(o[3])
-    if is_call(o) and o[1] in RNG_SRC:
-        return True, "thread_rng() in the same invocation"
-    return False, "generator is %s, not a per-call thread_rng()" % show(o, maxdepth=3)
+    # the generator object itself may have been advanced by earlier draws (also around a
+    # loop): peel those; every origin must be a thread_rng() call of this invocation
+    seen = set()
+    work = [strip(old)]
+    while work:
+        o = work.pop()
+        while o[0] == "after":
+            o = strip(o[3])
+        if o in seen:
+            continue
+        seen.add(o)
+        if o[0] == "phi":
+            ins = se.phi_inputs.get((o[2], o[3]))
+            if not ins:
+                return False, "generator origin unknown (phi)"
+            work.extend(strip(v) for v in ins.values())
+            continue
+        if is_call(o) and o[1] in RNG_SRC:
+            continue
+        return False, "generator is %s, not a per-call thread_rng()" % show(o, maxdepth=3)
+    return True, "thread_rng() in the same invocation"
 
 
 def fresh(ctx, t, depth=0):
@@ -572,3 +586,46 @@ def numnorm(t):
     if k == "field":
         return ("field", numnorm(t[1])) + t[2:]
     return t
+
+
+# --------------------------------------------------------------------------- for-loops
+
+def for_loops(ctx, se):
+    """`for x in <iter>` loops of a body as MIR lowers them: into_iter / next / discriminant.
+    Returns dicts: next_bb, iter_local, init (term given to into_iter, stripped), init_call,
+    elem (term of the Some payload), body_bb (Some target), exit_bb (None target)."""
+    body = se.body
+    out = []
+    for bb, t in body.calls():
+        if t.get("callee") != "std::iter::Iterator::next":
+            continue
+        info = se.term_info.get(bb)
+        if info is None:
+            continue
+        nxt = t["target"]
+        sw = se.term_info.get(nxt)
+        if not sw or sw.get("k") != "switch" or strip(sw["discr"])[0] != "discr":
+            continue
+        tg = dict(sw["targets"])
+        if 1 not in tg or 0 not in tg:
+            continue
+        # the iterator object: pointee of the &mut argument
+        a0 = info["locargs"][0] if "locargs" in info else None
+        it_loc = a0[1] if a0 and a0[0] == "ref" else None
+        init = None
+        init_call = None
+        if it_loc and it_loc[0] == "local":
+            ph = se.in_state.get(bb, {}).get(it_loc)
+            cand = []
+            if ph is not None and ph[0] == "phi":
+                cand = list(se.phi_inputs.get((ph[2], ph[3]), {}).values())
+            elif ph is not None:
+                cand = [ph]
+            for c in cand:
+                c = strip(c)
+                if is_call(c) and c[1].endswith("into_iter"):
+                    init_call = c
+                    init = c[2][0]
+        elem = ("field", ("downcast", info["term"], 1), 0)
+        out.append({"next_bb": bb, "switch_bb": nxt, "iter_loc": it_loc, "init": init, "init_call": init_call, "elem": elem, "body_bb": tg[1], "exit_bb": tg[0], "resolved": t.get("resolved")})
+    return out
